@@ -275,7 +275,6 @@ func contains(l []string, s string) bool {
 	return false
 }
 
-
 // ---- host bind table ---------------------------------------------------------
 
 type bsock struct {
